@@ -347,6 +347,11 @@ CHECKS = {
     technique='runtime monitoring: metamorphic comparison of answers across repeated loads plus an invariant on the machine footprint read through the verif hook after every load',
     text='Random programs (C07 generator, with and without cuts, plus a dynamic predicate with facts, a discontiguous predicate interleaved with other clauses, a multifile predicate and an operator declaration used by the text itself) are loaded 3-5 times on a fresh machine through load_module_string or consult_module_string; after every load 8 queries are run and the footprint is read; answers must equal those after the first load, and heap cells, stack top, trail, choice-point and environment registers, loader contexts and inactive load states must equal the values after the first load (atom table entries: the values after the second load).',
     note='Known finding K58: one inactive load state is left behind per load. The code area is append-only by design and is not part of the property.'),
+ 'C28': dict(
+    level='exploration',
+    technique='runtime monitoring: history monitor over Machine::run_query (every LeafAnswer is serialised by the worker) with a reference model of the expected answer stream; prefixes of the streams are consumed before the iterator is dropped',
+    text='Histories of 3-10 queries run on one fresh machine each: fact-table calls with 0-2 arguments given, member/2 enumerations, unifications with atoms, integers incl. 2^70, floats, strings, lists and structures with unbound variables, failing goals, goals that throw at the first / k-th / last solution, a conjunction with a cut, goals without variables; per query the whole stream or a prefix of 0-3 answers is taken; the stream must consist of the model answers in order (bindings up to renaming), then an optional false marker, then the end; an exception must be reported once and end the stream; what a query answers must not depend on the history.',
+    note='Known findings: K59 (after a query that threw or was consumed partially the machine is not clean: the old exception is reported again, later streams never end, panic in machine/mod.rs:1213, process death; keyed on histories that contain such a query, so histories without one are checked strictly) and K16 (an answer binding a partial list panics in lib_machine/mod.rs:403).'),
 }
 
 NOT_APPLICABLE_REASON_UNBUILT = ('check designed in DESIGN.md but not built/validated yet in this session; '
